@@ -196,6 +196,18 @@ ReqsC04b == <<
 >>
 
 --------------------------------------------------------------------------
+\* universe c04m: MANY badfilter rules in one list.  Seven base rules with their own tokens (one of them an
+\* exception, one important) followed by every subset of their seven badfilter twins: a rule is cancelled
+\* exactly when its twin is in the subset, however many other twins there are and in whatever order their
+\* identifiers happen to sort.
+BaseC04m == << W("/ab/a"), W("/ba/b"), W("/aab"), W("/bba"), [W("/abab") EXCEPT !.important = TRUE], W("/baba"),
+               [W("/bba") EXCEPT !.exc = TRUE] >>
+PoolC04m == [i \in DOMAIN BaseC04m |-> BadOf(BaseC04m[i])]
+ReqsC04m == << MkReq("https", "x.com", "/ab/a", "script", "x.com"), MkReq("https", "x.com", "/ba/b", "script", "x.com"),
+               MkReq("https", "x.com", "/aab", "script", "x.com"), MkReq("https", "x.com", "/bba", "script", "x.com"),
+               MkReq("https", "x.com", "/abab", "script", "x.com"), MkReq("https", "x.com", "/baba", "script", "x.com") >>
+
+--------------------------------------------------------------------------
 \* universe c05: same-bucket near-twins that differ in exactly one attribute (what the optimizer
 \* must not fuse, or must fuse without changing a verdict)
 PoolC05 == <<
@@ -412,9 +424,9 @@ ReqsC15 == SetToSeqD(
       src \in {"ab.ba", "x.com", "ba.com", ""} })
 
 --------------------------------------------------------------------------
-Pool == CASE U = "c01" -> PoolC01 [] U = "c01d" -> PoolC01d [] U = "c07" -> PoolC07 [] U = "c04b" -> PoolC04b [] U = "c05" -> PoolC05 [] U = "c08" -> PoolC08 [] U = "c13" -> PoolC13 [] U = "c13x" -> PoolC13x [] U = "c14" -> PoolC14
+Pool == CASE U = "c01" -> PoolC01 [] U = "c01d" -> PoolC01d [] U = "c07" -> PoolC07 [] U = "c04b" -> PoolC04b [] U = "c04m" -> PoolC04m [] U = "c05" -> PoolC05 [] U = "c08" -> PoolC08 [] U = "c13" -> PoolC13 [] U = "c13x" -> PoolC13x [] U = "c14" -> PoolC14
           [] U = "c15" -> PoolC15 [] OTHER -> <<>>
-Reqs == CASE U = "c03" -> ReqsC03 [] U = "c01" -> ReqsC01 [] U = "c01d" -> ReqsC01d [] U = "c07" -> ReqsC07 [] U = "c04b" -> ReqsC04b [] U = "c05" -> ReqsC05 [] U = "c08" -> ReqsC08 [] U = "c13" -> ReqsC13 [] U = "c13x" -> ReqsC13x [] IsRand -> ReqsRand
+Reqs == CASE U = "c03" -> ReqsC03 [] U = "c01" -> ReqsC01 [] U = "c01d" -> ReqsC01d [] U = "c07" -> ReqsC07 [] U = "c04b" -> ReqsC04b [] U = "c04m" -> ReqsC04m [] U = "c05" -> ReqsC05 [] U = "c08" -> ReqsC08 [] U = "c13" -> ReqsC13 [] U = "c13x" -> ReqsC13x [] IsRand -> ReqsRand
           [] U = "c14" -> ReqsC14 [] U = "c15" -> ReqsC15
 Res == IF U \in {"rand", "randr", "c13", "c13x", "c01", "c04b", "c05", "c08"} THEN ResC13 ELSE {}
 Tags == IF U \in {"rand", "randr", "c01", "c01d", "c07", "c15", "c04b", "c05", "c08"} THEN {"t1", "t2"} ELSE {}
@@ -431,7 +443,7 @@ IncSeqs(lo, n, k) ==
 PartsC03 == SetToSeqD({ <<s, pa>> : s \in ShapesC03, pa \in {"any", "3p", "1p"} })
 NParts == IF U = "c03" THEN Len(PartsC03) ELSE IF IsRand THEN K ELSE Len(Pool) + 1
 
-Base == IF U = "c13x" THEN BaseC13x ELSE <<>>
+Base == IF U = "c13x" THEN BaseC13x ELSE IF U = "c04m" THEN BaseC04m ELSE <<>>
 ListsOf(p) ==
   IF U = "c03"
   THEN { << [PartsC03[p][1] EXCEPT !.pos = PosOf(S), !.neg = NegOf(S), !.party = PartsC03[p][2],
@@ -492,7 +504,7 @@ CaseRecord(f) ==
                                               hv \in HitVectorsH([i \in DOMAIN L |-> f[q][i].ideal])}]]
                           ELSE <<>>,
                \* Optimizer.tla: which rules the optimised engine fuses (observable in the debug text)
-               fuse |-> IF U \in {"c01", "c05", "rand"}
+               fuse |-> IF U \in {"c01", "c04m", "c05", "rand"}
                         THEN SetToSeqD({ {RuleText(L[i]) : i \in G} : G \in AllFuseGroups(L, T) }) ELSE <<>>,
                dev |-> SetToSeqD({ [q |-> q, names |-> UNION {DevHit(L[i], Reqs[q]) : i \in DOMAIN L}, mv |-> mv[q], mcsp |-> mc[q]] : q \in devq })]
       mh == [q \in DOMAIN Reqs |-> [i \in DOMAIN L |->
@@ -538,7 +550,7 @@ RefinesAndExports ==
           \/ DevHit(L[i], Reqs[q]) # {}
     /\ \A q \in DOMAIN Reqs : IdealVerdictsH(L, T, Res, Reqs[q], [i \in DOMAIN L |-> f[q][i].ideal]) # {}
     /\ MonotoneIdeal(f)
-    /\ (U \in {"c01", "c05", "rand"} => FuseSound(L, T, Reqs) /\ \A i \in DOMAIN L : TokenViewsAgree(L[i]))
+    /\ (U \in {"c01", "c04m", "c05", "rand"} => FuseSound(L, T, Reqs) /\ \A i \in DOMAIN L : TokenViewsAgree(L[i]))
     /\ PrintT(ToJson(CaseRecord(f)))
 
 ASSUME PrintT(ToJson([k |-> "universe", u |-> U,
